@@ -440,6 +440,36 @@ let exec (toks : string list) : string =
        end
      | _ -> "-")
   | "ITER" :: src :: ops :: args -> iter_run src ops (List.map n_of_string args)
+  | "SPACE" :: _ ->
+    (* reported space_usage_byte and retained heap bytes ("?" where the model does not predict it) *)
+    (match !cur with
+     | Qv q -> "V" ^ sn (qv_space q) ^ " " ^ sn (qv_heap q)
+     | Rsq (_, r) -> "V" ^ sn (rsq_space r) ^ " " ^ sn (rsq_heap r)
+     | Bv (false, b) -> "V" ^ sn (bv_space b) ^ " " ^ sn (bv_heap b)
+     | Bv (true, b) -> "V? ?"
+     | Rsn r -> "V" ^ sn (rsn_space r) ^ " " ^ sn (rsn_heap r)
+     | Rsw r -> "V" ^ sn (rsw_space r) ^ " " ^ sn (rsw_heap r)
+     | Da (_, d) -> "V" ^ sn (da_space d) ^ " " ^ sn (da_heap d)
+     | Qwt (_, _, t) -> "V" ^ sn (qwt_space t !cur_pfs) ^ " " ^ (if t.q_n = N0 then "?" else sn (qwt_heap abi64 t !cur_pfs))
+     | Hq (_, _, t) -> "V" ^ sn (hq_space t !cur_pfs) ^ " ?"
+     | Wt (_, c, t) -> "V" ^ sn (wt_space c t) ^ " " ^ (if c || t.w_n = N0 then "?" else sn (wt_heap_plain abi64 t))
+     | _ -> "-")
+  | "SER" :: id :: hex :: _ ->
+    (* decode the implementation's bytes with the schema generated from the Rust struct
+       definitions, re-encode, and print the result in the implementation's format *)
+    let nb = String.length hex / 2 in
+    let bytes = List.init nb (fun i -> n_of_int (int_of_string ("0x" ^ String.sub hex (2 * i) 2))) in
+    (match List.assoc_opt (n_of_int (int_of_string id)) (List.map (fun (a, b) -> (a, b)) all_schemas) with
+     | None -> "-"
+     | Some t ->
+       (match decode t bytes with
+        | Some (v, []) ->
+          let out = encode t v in
+          let b = Buffer.create (2 * nb) in
+          List.iter (fun x -> Buffer.add_string b (Printf.sprintf "%02x" (nlen_int x))) out;
+          "V" ^ string_of_int (List.length out) ^ ":" ^ Buffer.contents b ^ (if wt t v then "" else "!illtyped")
+        | Some (_, _ :: _) -> "Vtrailing-bytes"
+        | None -> "Vdecode-failed"))
   | "FN" :: "selword" :: w :: k :: _ -> sv sn (select_in_word (n_of_string w) (n_of_string k))
   | "FN" :: "selword128" :: w :: k :: _ -> sv sn (select_in_word_u128 (n_of_string w) (n_of_string k))
   | "FN" :: "popcnt" :: n :: ws ->
